@@ -275,6 +275,7 @@ func (c *streamCtx) dirC01() []genCase {
 					switch what {
 					case "terminate":
 						b.aws.TermInAsgFail = []string{b.instanceOf(2 + k)}
+						b.aws.ErrCode = []string{"", "ValidationError", "Throttling"}[(k+len(out))%3]
 					case "delete":
 						b.k8s.DeleteFail = []string{b.nodeName(2 + k)}
 					default:
